@@ -31,11 +31,11 @@ Definition c19_flat_roundtrip := flat_roundtrip_b.
 Definition c19_generate_c (f : fs) (fl : flags) (p : string) : result := run_generate_c f fl p.
 Definition c19_generate_c_ok := generate_c_ok_b.
 Definition c19_spec_eff_c := spec_eff_c.
-Definition c19_build (f : fs) : result := run_build f.
-Definition c19_build_ok := build_ok_b.
-Definition c19_spec_eff_build := spec_eff_build.
-Definition c19_build_invalid := build_invalid.
-Definition c19_kf_build_fallback := kf_build_fallback.
+Definition c19_build (f : fs) : result := run_build_detect f.
+Definition c19_build_ok := build_ok_detect_b.
+Definition c19_spec_eff_build := spec_eff_build_detect.
+Definition c19_build_invalid := build_invalid_detect.
+Definition c19_kf_build_fallback := kf_build_fallback_detect.
 
 Definition c19_init_file (f : fs) (il : iflags) (force : bool) : result := run_init_file f il force.
 Definition c19_init_file_ok := init_file_ok_b.
